@@ -1359,6 +1359,14 @@ func paCase(e *emitter, q, class, base, edit string) {
 		e.count("pa/BuildPlan_panicked(not_C17)")
 		return
 	}
+	if cls != 0 && strings.Contains(msg, " arguments but got ") && strings.Contains(msg, " require ") {
+		// an aggregate call with a wrong argument count: reported by the call validation since fix 06064ce,
+		// modelled by parse_check where it used to be tested (AggregatePlan.Init); such texts are compared
+		// with the repaired twin parse_check_agg by C14's stream agg (its code 6 judges the position)
+		e.m.OutOfModel++
+		e.count("pa/aggregate_argument_count(judged_by_C14_stream_agg)")
+		return
+	}
 	outcome, who := "accepted", "-"
 	if cls != 0 {
 		who = paWho(q, stage, msg, pos)
